@@ -253,8 +253,17 @@ ppl_thread_finalize_aux() {
   Variable::set_output_function(saved_cxx_Variable_output_function);
 }
 
+// Whether the library has been initialized (and not yet finalized)
+// through the C interface.
+static bool ppl_c_interface_initialized = false;
+
 int
 ppl_initialize(void) try {
+  if (ppl_c_interface_initialized) {
+    throw std::invalid_argument("ppl_initialize(): "
+                                "the library was already initialized.");
+  }
+  ppl_c_interface_initialized = true;
   // First execute C++ (library and thread) initialization, ...
   initialize();
   // ... then execute C-interface specific initialization.
@@ -266,6 +275,11 @@ CATCH_ALL
 
 int
 ppl_finalize(void) try {
+  if (!ppl_c_interface_initialized) {
+    throw std::invalid_argument("ppl_finalize(): "
+                                "the library was already finalized.");
+  }
+  ppl_c_interface_initialized = false;
   // First execute C-interface specific finalization, ...
   ppl_thread_finalize_aux();
   ppl_finalize_aux();
